@@ -130,6 +130,9 @@ def contracts():
              ensures=["same(ops(self), (T, 'P', path_parts[0]))"]),
         Case('text-parts', args={'self': 'inst:core.Path', 'path_parts': 'tuple:str,int'}, requires=TT,
              ensures=["same(ops(self), (T, 'P', path_parts[0], 'P', path_parts[1]))"]),
+        Case('T-first', args={'self': 'inst:core.Path', 'path_parts': 'tuple:inst:core.TType,str'},
+             requires=TT + ['len(path_parts[0].__ops__) % 2 == 1'],
+             ensures=["same(ops(self), path_parts[0].__ops__ + ('P', path_parts[1]))"]),
         Case('bad-root', args={'self': 'inst:core.Path', 'path_parts': 'tuple:str,inst:core.TType'},
              requires=TT + ['len(path_parts[1].__ops__) >= 1', 'path_parts[1].__ops__[0] is S'], ensures=['False'], raises={'ValueError': 'True'})]))
     cs.append(Post('core.Path.startswith', helpers='h_path', label='core.Path.startswith[text]', cases=[
@@ -139,6 +142,9 @@ def contracts():
         Case('int', args={'x': 'int'}, ensures=['result == bbrepr(x)'])]))
     from contracts import extra as _ex
     cs.append(_ex.bbrepr_facts())
+    from contracts import C02 as _c02
+    import contracts.common as _common
+    cs += _common.shared(_c02, ['core._t_child'])
     return cs
 
 
